@@ -34,7 +34,9 @@ UintKinds == {"uint", "uint8", "uint16", "uint32", "uint64", "uintptr"}
 FloatKinds == {"float32", "float64"}
 NumKinds == IntKinds \cup UintKinds \cup FloatKinds
 ParamKinds == NumKinds \cup {"string", "bool", "iface", "list", "map"}
-ResultKinds == NumKinds \cup {"string", "bool", "iface", "list", "error"}
+\* nint / nfloat: results of defined numeric types (time.Duration, a float type of the application)
+NamedNumKinds == {"nint", "nfloat"}
+ResultKinds == NumKinds \cup NamedNumKinds \cup {"string", "bool", "iface", "list", "error"}
 
 \* twice the value of the small numbers
 Val == [n0 |-> 0, n1 |-> 2, nm1 |-> -2, n2h |-> 5, nm2h |-> -5, n127 |-> 254, n128 |-> 256, n255 |-> 510, n256 |-> 512,
@@ -79,7 +81,10 @@ Fits(k, a) ==
 \* sig: [params, variadic, results, err ("none" | "nil" | "err"), panics]
 Invoked(sig, args) ==
   LET np == Len(sig.params) IN
-  IF sig.variadic THEN "either"
+  IF sig.variadic
+  THEN \* only the fixed parameters given (nothing for the variadic one) is certainly a valid call; what the bridge does
+       \* with arguments for the variadic parameter is left open
+       IF Len(args) = np - 1 /\ \A i \in 1..(np - 1) : Fits(sig.params[i], args[i]) = "yes" THEN "yes" ELSE "either"
   ELSE IF Len(args) # np THEN "no"
   ELSE IF \E i \in 1..np : Fits(sig.params[i], args[i]) = "no" THEN "no"
   ELSE IF \E i \in 1..np : Fits(sig.params[i], args[i]) = "either" THEN "either"
